@@ -176,7 +176,7 @@ def run(ctx):
                 'has depth >= 2; distinct = distinct triple')
     ctx.assumptions += ['callables, NewTypes, TypeVars and generics are outside the model (wrapper coherence for them is checked '
                         'on the implementation only)', 'validator metadata equality is modelled structurally (validators are memoised)']
-    regenerate(ctx)
+    ctx.safe_regenerate(regenerate)
     proof_err = None
     try:
         ctx.prove(PROP, extra_targets=['theories/Core/CorrDoor.vo'])
@@ -297,7 +297,7 @@ def report(ctx, shape, record, what):
 def replay(ctx, path):
     with open(path) as f:
         body = json.load(f)
-    regenerate(ctx)
+    ctx.safe_regenerate(regenerate)
     r = body['record']
     hs = [r[k] for k in ('A', 'B', 'C') if k in r] or [r.get('hint')]
     print(json.dumps(run_impl('c19_impl.py', {'cases': [{'hints': hs, 'values': [r['object']] if 'object' in r else [],
